@@ -64,6 +64,8 @@ def cases(tier, seed):
     cs += grid + imex
     for idx in range(40):
         cs.append(dict(kind='rk', idx=idx, _cost=10))
+    for i in range(8 if tier == 'quick' else 200):
+        cs.append(dict(kind='rkn', cls=['RKN', 'Velocity_Verlet'][i % 2], dt0=float(rng.uniform(0.004, 0.02)), seed=int(rng.integers(0, 2**31)), _cost=10))
     return cs
 
 
@@ -318,10 +320,50 @@ def run_rk(case, r):
     r.sample = dict(cls=name, measured_order=measured, documented=order, embedded_difference_order=sec)
 
 
+def run_rkn(case, r):
+    """Runge-Kutta-Nystrom sweepers (second-order problems, particle data): observed local order on the Penning trap with
+    random admissible trap parameters and initial data; documented global orders RKN 4, Velocity_Verlet 2."""
+    import pySDC.implementations.sweeper_classes.Runge_Kutta_Nystrom as RN
+    from pySDC.implementations.controller_classes.controller_nonMPI import controller_nonMPI
+    from pySDC.implementations.problem_classes.PenningTrap_3D import penningtrap
+
+    cls = getattr(RN, case['cls'])
+    order = dict(RKN=4, Velocity_Verlet=2)[case['cls']]
+    rng = np.random.default_rng(case['seed'])
+    wE = float(rng.uniform(1.0, 6.0))
+    wB = float(rng.uniform(2.2, 6.0)) * wE
+    u0 = np.array([[float(rng.uniform(1, 12)), float(rng.uniform(-3, 3)), float(rng.uniform(-3, 3))], [float(rng.uniform(-50, 50)), float(rng.uniform(-50, 50)), float(rng.uniform(-50, 50))], [1], [1]], dtype=object)
+    r.key = f"rkn/{case['cls']}/{wB:.3f}/{wE:.3f}"
+    errs = []
+    dts = [case['dt0'] / 2**i for i in range(4)]
+    for dt in dts:
+        desc = dict(problem_class=penningtrap, problem_params=dict(omega_B=wB, omega_E=wE, u0=u0, nparts=1, sig=0.1), sweeper_class=cls, sweeper_params=dict(), level_params=dict(dt=dt), step_params=dict(maxiter=1))
+        ctrl = controller_nonMPI(1, dict(logger_level=50, dump_setup=False), desc)
+        P = ctrl.MS[0].levels[0].prob
+        with np.errstate(all='ignore'):
+            uend, _ = ctrl.run(P.u_exact(0.0), 0.0, dt)
+            ue = P.u_exact(dt)
+        errs.append((float(np.max(np.abs(np.asarray(uend.pos) - np.asarray(ue.pos)))), float(np.max(np.abs(np.asarray(uend.vel) - np.asarray(ue.vel))))))
+    for comp, name in ((0, 'position'), (1, 'velocity')):
+        e = [x[comp] for x in errs]
+        if min(e) < 1e-12 * max(1.0, float(np.max(np.abs(np.asarray(ue.pos, dtype=float))))) or not np.all(np.isfinite(e)):
+            r.count('rkn_error_at_roundoff')
+            continue
+        rates = [float(np.log2(e[i] / e[i + 1])) for i in range(len(e) - 1)]
+        # local error of a method of order p behaves like dt^(p+1); the last two halvings are in the asymptotic regime
+        r.check(min(rates[-2:]) >= order + 1 - 0.3, 'rk-order', f'{r.key}: local {name} errors {e} for dt {dts} give rates {rates}, documented order {order} needs {order + 1}')
+        r.count('rkn_rates')
+    r.nontrivial = True
+    r.observe('rk_class', f"{case['cls']}:local-rate")
+    r.sample = dict(case={k: v for k, v in case.items() if not k.startswith('_')}, errors=errs)
+
+
 def run_case(case):
     r = Result(case)
     if case['kind'] == 'sdc':
         run_sdc(case, r)
+    elif case['kind'] == 'rkn':
+        run_rkn(case, r)
     else:
         run_rk(case, r)
     r.count('kind:' + case['kind'])
